@@ -398,11 +398,13 @@ Section Inv.
       rewrite Hcu in E0. inversion E0; subst. rewrite Hq'u. now apply Hu.
   Qed.
 
-  Lemma finish_ok sn s u sn' o :
+  Lemma finish_ok r sn s u sn' o :
     sess_ok s -> (forall q, cur s = Some q -> q_url q = u) ->
-    finish c jar sn s = (sn', o) -> sn' = sn /\ after_ok u o.
+    finish c jar r sn s = (sn', o) -> sn' = sn /\ after_ok u o.
   Proof.
-    intros Hs Hu. unfold finish. destruct (cookies_after c jar s) as [s'|] eqn:E; intros E'; inversion E'; subst.
+    intros Hs Hu. unfold finish.
+    destruct (c_use_jar c && r_xraise r); [intros E'; inversion E'; subst; split; [reflexivity | exact I]|].
+    destruct (cookies_after c jar s) as [s'|] eqn:E; intros E'; inversion E'; subst.
     - split; [reflexivity|]. cbn [after_ok]. now apply (cookies_after_ok s s' u).
     - split; [reflexivity | exact I].
   Qed.
@@ -445,23 +447,23 @@ Section Inv.
             if copy_fails then (sn, OErr ERR_COPY) else
             let nq := if is_repeat (r_status r) then repeat_request c (ss_orig s1) u else fresh (c_base c) u in
             let nq := prepare_for_send nq in
-            finish c jar sn (
+            finish c jar r sn (
                           {| ss_orig := ss_orig s1; ss_next := NOther nq; ss_loop_auth := false;
                              ss_auths := ss_auths s1; ss_nredir := n'; ss_t := ss_t s1 |})
         end
     else if (r_status r =? 401) && nonempty (q_pass q2) then
       if ss_loop_auth s1 then
-        finish c jar sn (
+        finish c jar r sn (
                       {| ss_orig := ss_orig s1; ss_next := NDone; ss_loop_auth := false;
                          ss_auths := ss_auths s1; ss_nredir := n'; ss_t := ss_t s1 |})
       else
         let s2 := upd s1 (add_basic_auth q2) in
-        finish c jar sn (
+        finish c jar r sn (
                       {| ss_orig := ss_orig s2; ss_next := ss_next s2; ss_loop_auth := true;
                          ss_auths := hostname_with_port (q_url q2) :: ss_auths s2;
                          ss_nredir := n'; ss_t := ss_t s2 |})
     else
-      finish c jar sn (
+      finish c jar r sn (
                     {| ss_orig := ss_orig s1; ss_next := NDone; ss_loop_auth := false;
                        ss_auths := ss_auths s1; ss_nredir := n'; ss_t := ss_t s1 |}).
 
@@ -493,7 +495,7 @@ Section Inv.
         - split; [now apply req_ok_fresh | reflexivity]. }
       destruct Hnq0 as [Hnq0 Hnq0u].
       destruct (req_ok_prepare nq0 Hnq0) as (Hnq & _ & Hnqu).
-      intros E. apply (finish_ok _ _ u) in E; [exact E| |].
+      intros E. apply (finish_ok _ _ _ u) in E; [exact E| |].
       + split; [exact (proj1 Hs1)|]. cbn [cur ss_next]. intros q' E'. injection E' as <-. exact Hnq.
       + cbn [cur ss_next]. intros q' E'. injection E' as <-. now rewrite Hnqu.
     - assert (Hnu : match r_loc r with LocUrl _ => q_url q2 | _ => q_url q2 end = q_url q2)
@@ -505,7 +507,7 @@ Section Inv.
         by (destruct (r_loc r); reflexivity).
       destruct ((r_status r =? 401) && nonempty (q_pass q2)).
       + destruct (ss_loop_auth s1).
-        * intros E. apply (finish_ok _ _ (q_url q2)) in E; [exact E| |].
+        * intros E. apply (finish_ok _ _ _ (q_url q2)) in E; [exact E| |].
           -- split; [exact (proj1 Hs1)|]. cbn [cur ss_next]. intros q' E'. discriminate.
           -- cbn [cur ss_next]. intros q' E'. discriminate.
         * pose proof (req_ok_add_basic_auth q2 Hq2) as Hq3.
@@ -514,12 +516,12 @@ Section Inv.
           set (s2 := upd s1 (add_basic_auth q2)) in *.
           assert (Hq3u : q_url (add_basic_auth q2) = q_url q2).
           { unfold add_basic_auth. destruct (_ && _); reflexivity. }
-          intros E. apply (finish_ok _ _ (q_url q2)) in E; [exact E| |].
+          intros E. apply (finish_ok _ _ _ (q_url q2)) in E; [exact E| |].
           -- split; [exact (proj1 Hs2)|]. unfold cur in *. cbn [ss_next ss_orig]. rewrite Hc2.
              intros q' E'. injection E' as <-. exact Hq3.
           -- unfold cur in *. cbn [ss_next ss_orig]. rewrite Hc2.
              intros q' E'. injection E' as <-. exact Hq3u.
-      + intros E. apply (finish_ok _ _ (q_url q2)) in E; [exact E| |].
+      + intros E. apply (finish_ok _ _ _ (q_url q2)) in E; [exact E| |].
         * split; [exact (proj1 Hs1)|]. cbn [cur ss_next]. intros q' E'. discriminate.
         * cbn [cur ss_next]. intros q' E'. discriminate.
   Qed.
